@@ -585,20 +585,20 @@ inductive Ev where
   | unsup
 deriving DecidableEq, Repr
 
-/-- repeated `get_item` until the reader is exhausted (with explicit fuel; see
-    `Proofs/ReaderDrain.lean` for the bound) -/
-def drainEv (d : Nat) (fs : Fs) : Nat → List Rd → List Ev × List Rd
-  | 0, st => ([], st)
+/-- repeated `get_item` until the reader is exhausted; `none` = out of fuel
+    (`Proofs/ReaderDrain.lean` gives a sufficient amount) -/
+def drainEv (d : Nat) (fs : Fs) : Nat → List Rd → Option (List Ev × List Rd)
+  | 0, _ => none
   | fuel+1, st =>
     let p := getItem d fs st
     match p.1 with
-    | .ok x => let q := drainEv d fs fuel p.2; (.item x :: q.1, q.2)
-    | .stop => if exhausted p.2 then ([], p.2) else
-        let q := drainEv d fs fuel p.2; (.none :: q.1, q.2)
-    | .err => if exhausted p.2 then ([], p.2) else
-        let q := drainEv d fs fuel p.2; (.none :: q.1, q.2)
-    | .exit => ([.exit], p.2)
-    | .unsup => ([.unsup], p.2)
+    | .ok x => (drainEv d fs fuel p.2).map fun q => (.item x :: q.1, q.2)
+    | .stop => if exhausted p.2 then some ([], p.2) else
+        (drainEv d fs fuel p.2).map fun q => (.none :: q.1, q.2)
+    | .err => if exhausted p.2 then some ([], p.2) else
+        (drainEv d fs fuel p.2).map fun q => (.none :: q.1, q.2)
+    | .exit => some ([.exit], p.2)
+    | .unsup => some ([.unsup], p.2)
 
 def Ev.item? : Ev → Option Item
   | .item x => some x
